@@ -51,7 +51,7 @@ WF(s) == \A r \in AllRefs(s) : IsLive(s, r[1], r[2])
 RefsExceptImport(s, sp, id) ==
   (AllRefs([s EXCEPT !.imports = <<>>]) \cap {<<sp, id>>}) # {}
 
-DeadFunc   == [live |-> FALSE, imported |-> FALSE, sig |-> "", refs |-> <<>>]
+DeadFunc   == [live |-> FALSE, imported |-> FALSE, sig |-> "", refs |-> <<>>, name |-> ""]
 DeadTM     == [live |-> FALSE, imported |-> FALSE, ty |-> ""]
 DeadGlobal == [live |-> FALSE, imported |-> FALSE, ty |-> "", init |-> NoExpr]
 DeadElem   == [live |-> FALSE, mode |-> "", table |-> -1, offset |-> NoExpr, ety |-> "", items |-> <<>>]
@@ -71,7 +71,7 @@ FirstExportOf(s, f) == CHOOSE k \in DOMAIN s.exports :
 CanReplaceImported(s, f) == IsLive(s, "func", f) /\ s.funcs[f + 1].imported
 \* keeps the identifier (so every caller, table entry and export now runs the new body), removes only that import
 ReplaceImported(s, f, refs) ==
-  [s EXCEPT !.funcs[f + 1] = [live |-> TRUE, imported |-> FALSE, sig |-> s.funcs[f + 1].sig, refs |-> refs],
+  [s EXCEPT !.funcs[f + 1] = [live |-> TRUE, imported |-> FALSE, sig |-> s.funcs[f + 1].sig, refs |-> refs, name |-> s.funcs[f + 1].name],
             !.imports = WithoutImportOf(s, "func", f)]
 
 CanReplaceExported(s, f) == /\ IsLive(s, "func", f) /\ ~s.funcs[f + 1].imported
@@ -79,7 +79,8 @@ CanReplaceExported(s, f) == /\ IsLive(s, "func", f) /\ ~s.funcs[f + 1].imported
 \* a new function with the same signature; only that export is retargeted; the original stays for internal callers
 ReplaceExported(s, f, refs) ==
   LET new == Len(s.funcs) IN
-  [s EXCEPT !.funcs = Append(@, [live |-> TRUE, imported |-> FALSE, sig |-> s.funcs[f + 1].sig, refs |-> refs]),
+  \* (C13) the original keeps its debug name; the new function is a new, so far nameless, entity
+  [s EXCEPT !.funcs = Append(@, [live |-> TRUE, imported |-> FALSE, sig |-> s.funcs[f + 1].sig, refs |-> refs, name |-> ""]),
             !.exports[FirstExportOf(s, f)].target = new]
 
 -----------------------------------------------------------------------------
@@ -87,9 +88,9 @@ ReplaceExported(s, f, refs) ==
 
 AddExport(s, name, kind, target) == [s EXCEPT !.exports = Append(@, [name |-> name, kind |-> kind, target |-> target])]
 DeleteExport(s, k) == [s EXCEPT !.exports = SubSeq(@, 1, k - 1) \o SubSeq(@, k + 1, Len(@))]
-AddFunc(s, sig, refs) == [s EXCEPT !.funcs = Append(@, [live |-> TRUE, imported |-> FALSE, sig |-> sig, refs |-> refs])]
+AddFunc(s, sig, refs) == [s EXCEPT !.funcs = Append(@, [live |-> TRUE, imported |-> FALSE, sig |-> sig, refs |-> refs, name |-> ""])]
 AddImportFunc(s, field, sig) ==
-  [s EXCEPT !.funcs = Append(@, [live |-> TRUE, imported |-> TRUE, sig |-> sig, refs |-> <<>>]),
+  [s EXCEPT !.funcs = Append(@, [live |-> TRUE, imported |-> TRUE, sig |-> sig, refs |-> <<>>, name |-> ""]),
             !.imports = Append(@, [module |-> "env", field |-> field, kind |-> "func", target |-> Len(s.funcs)])]
 AddGlobal(s, mutable, value) ==
   [s EXCEPT !.globals = Append(@, [live |-> TRUE, imported |-> FALSE,
